@@ -880,3 +880,16 @@ fn verif_poly_log_push(d: u128, r: &Uint, start_offset: i64, nblocks: usize, r1:
         }
     });
 }
+
+// ---------------------------------------------------------------------------
+// Verification hooks (add-only, compiled only with --cfg yamaquasi_verif).
+
+/// (mpqs_interval_size, large_prime_factor, double_large_factor) for the (multiplied) input.
+#[cfg(yamaquasi_verif)]
+pub fn verif_params(n: &Uint) -> (i64, u64, u64) {
+    (
+        mpqs_interval_size(n),
+        large_prime_factor(n),
+        double_large_factor(n),
+    )
+}
